@@ -448,6 +448,145 @@ fn run_removal(ev: u64, both_learned: bool, trace: bool) -> CaseResult {
     res
 }
 
+// ---------------------------------------------------------------- cached addresses follow the enabled set
+
+/// A client on sim0 (IPv4) and sim1 (IPv4 + IPv6).  x = [pre-selection: 0 none / 1 IPv4 disabled /
+/// 2 IPv6 disabled, transport the peer's packet arrives over on sim1: 0 IPv4 / 1 IPv6 (always an
+/// enabled one), records for the host: 0 A / 1 AAAA / 2 both, event].  After the event a new browse
+/// and a new host-name search are started: nothing they report may carry an address whose records
+/// were learned on sim1 when sim1 is disabled or gone as a whole, nor - when one family of sim1
+/// was disabled - an address of that family that was learned over that family.
+const DC_EVENTS: [&str; 9] = ["disable-by-name", "disable-all", "disable-ipv4", "disable-ipv6", "disable-indexv4", "disable-indexv6", "disable-addr-v4", "disable-addr-v6", "interface-gone"];
+fn run_disable_cache(x: &[u64], trace: bool) -> CaseResult {
+    let mut res = CaseResult::default();
+    let (pre, transport_v6, recs, ev) = (x[0], x[1] == 1, x[2], x[3] as usize);
+    // the packet must arrive over an enabled family
+    if (pre == 1 && !transport_v6) || (pre == 2 && transport_v6) {
+        return res;
+    }
+    let mut table = vec![v4("sim0", IF0, "10.0.0.1", 24), v4("sim1", IF1, "10.0.1.1", 24), v6("sim1", IF1, "fd00:1::1", 64)];
+    let mut w = World::one(table.clone());
+    w.trace = trace;
+    w.ds[0].h.set_ip_check_interval(1).unwrap();
+    w.poke(0);
+    w.advance(5100);
+    match pre {
+        1 => w.ds[0].h.disable_interface(IfKind::IPv4).unwrap(),
+        2 => w.ds[0].h.disable_interface(IfKind::IPv6).unwrap(),
+        _ => {}
+    }
+    w.poke(0);
+    let rx = w.ds[0].h.browse("_t._tcp.local.").unwrap();
+    w.add_browse(0, rx);
+    w.poke(0);
+    let i = Inst::simple("inst", "h1", [10, 0, 1, 9]);
+    let v6ip: std::net::Ipv6Addr = "fd00:1::9".parse().unwrap();
+    let mut rr = vec![i.ptr(4500), i.srv(4500), i.txt(4500)];
+    if recs != 1 {
+        rr.push(a(&i.host, [10, 0, 1, 9], 4500));
+    }
+    if recs != 0 {
+        rr.push(aaaa(&i.host, v6ip, 4500));
+    }
+    w.deliver(0, IF1, if transport_v6 { "[fd00:1::9]:5353" } else { PEER1 }, build(&response(rr)));
+    w.advance(200);
+    // which families of sim1 are enabled before / after the event
+    let mut on4 = pre != 1;
+    let mut on6 = pre != 2;
+    let (was4, was6) = (on4, on6);
+    let mut gone = false;
+    match DC_EVENTS[ev] {
+        "disable-by-name" => {
+            w.ds[0].h.disable_interface("sim1").unwrap();
+            on4 = false;
+            on6 = false;
+        }
+        "disable-all" => {
+            w.ds[0].h.disable_interface(IfKind::All).unwrap();
+            on4 = false;
+            on6 = false;
+        }
+        "disable-ipv4" => {
+            w.ds[0].h.disable_interface(IfKind::IPv4).unwrap();
+            on4 = false;
+        }
+        "disable-ipv6" => {
+            w.ds[0].h.disable_interface(IfKind::IPv6).unwrap();
+            on6 = false;
+        }
+        "disable-indexv4" => {
+            w.ds[0].h.disable_interface(IfKind::IndexV4(IF1)).unwrap();
+            on4 = false;
+        }
+        "disable-indexv6" => {
+            w.ds[0].h.disable_interface(IfKind::IndexV6(IF1)).unwrap();
+            on6 = false;
+        }
+        "disable-addr-v4" => {
+            w.ds[0].h.disable_interface(IfKind::Addr("10.0.1.1".parse().unwrap())).unwrap();
+            on4 = false;
+        }
+        "disable-addr-v6" => {
+            w.ds[0].h.disable_interface(IfKind::Addr("fd00:1::1".parse().unwrap())).unwrap();
+            on6 = false;
+        }
+        _ => {
+            table.retain(|t| t.index != IF1);
+            w.ds[0].ctl.set_intfs(table.clone());
+            gone = true;
+        }
+    }
+    w.poke(0);
+    w.advance(1300);
+    let lix = w.log.len();
+    let rx2 = w.ds[0].h.browse("_t._tcp.local.").unwrap();
+    let ch2 = w.add_browse(0, rx2);
+    w.poke(0);
+    let rxh = w.ds[0].h.resolve_hostname("h1.local.", None).unwrap();
+    let hch = w.add_host(0, rxh);
+    w.poke(0);
+    w.advance(300);
+    let whole = gone || (!on4 && !on6);
+    let tag = format!("{}|{}", DC_EVENTS[ev], ["nothing-disabled-before", "ipv4-disabled-before", "ipv6-disabled-before"][pre as usize]);
+    let dead = |ad: &Addr| -> bool {
+        if !ad.intfs.iter().any(|(_, idx)| *idx == IF1) {
+            return false;
+        }
+        if whole {
+            return true;
+        }
+        // one family disabled by this event: its addresses learned over that family
+        (ad.ip.is_ipv4() && was4 && !on4 && !transport_v6) || (ad.ip.is_ipv6() && was6 && !on6 && transport_v6)
+    };
+    let mut reported: Vec<Addr> = vec![];
+    for (_, e) in bevs(&w, 0, ch2, lix) {
+        if let BEv::Resolved(r) = e {
+            reported.extend(r.addrs.iter().cloned());
+        }
+    }
+    for (_, e) in hevs(&w, 0, hch, lix) {
+        if let HEv::Found(_, v) = e {
+            reported.extend(v.iter().cloned());
+        }
+    }
+    res.count("reports_after_the_event_checked", 1);
+    res.count("addresses_still_reported_rightly", reported.iter().filter(|ad| !dead(ad)).count() as u64);
+    if let Some(ad) = reported.iter().find(|ad| dead(ad)) {
+        res.viols.push(viol(
+            format!("C18|address-learned-on-a-removed-or-disabled-interface-still-reported|{tag}"),
+            format!("records {} delivered over {}; a new browse / host-name search 1.3 s after the event reports {ad:?}", ["A", "AAAA", "A+AAAA"][recs as usize], if transport_v6 { "IPv6" } else { "IPv4" }),
+        ));
+    }
+    if let Some(f) = daemon_fault(&w, 0) {
+        res.viols.push(viol(format!("C18|daemon-fault|{}", panic_sig(&f)), f));
+    }
+    res.nontrivial = true;
+    res.transitions = w.steps;
+    res.outcome = outcome_hash(&w.log);
+    res.states = final_states(&w);
+    res
+}
+
 // ---------------------------------------------------------------- automatic addressing follows the interface table
 
 #[derive(Clone, Copy, Debug, PartialEq)]
@@ -736,6 +875,17 @@ pub fn check(tier: &str) -> i32 {
         run: Box::new(|i, tr| run_removal(i % 7, i / 7 == 1, tr)),
     };
     rep.run_part(&rem, Duration::from_secs(120));
+    let ddims = [3u64, 2, 3, DC_EVENTS.len() as u64];
+    let dc = FnPart {
+        name: "cached-addresses-follow-the-enabled-set".into(),
+        rule: "client on sim0 (IPv4) and sim1 (IPv4+IPv6) x (nothing | IPv4 | IPv6 disabled beforehand) x the peer's answer arrives on sim1 over (IPv4 | IPv6, an enabled one) x host records (A | AAAA | both) x event (sim1 disabled by name / all disabled / IPv4 / IPv6 / IndexV4 / IndexV6 / its IPv4 address / its IPv6 address / sim1 disappears); 1.3 s later a new browse and a new host-name search must not report an address learned on sim1 when sim1 is disabled or gone as a whole, nor an address of the family just disabled that was learned over that family".into(),
+        n: product(&ddims),
+        describe: Box::new(move |i| { let x = unrank(i, &ddims); format!("pre {} transport {} records {} event {}", x[0], if x[1] == 1 { "v6" } else { "v4" }, x[2], DC_EVENTS[x[3] as usize]) }),
+        run: Box::new(move |i, tr| run_disable_cache(&unrank(i, &ddims), tr)),
+    };
+    rep.run_part(&dc, Duration::from_secs(120));
+    rep.require("cached-addresses-follow-the-enabled-set", "reports_after_the_event_checked");
+    rep.require("cached-addresses-follow-the-enabled-set", "addresses_still_reported_rightly");
     let adepth = if thorough { 6 } else { 4 };
     let na = AEVS.len() as u64;
     let mut naseq = 0u64;
